@@ -117,6 +117,10 @@ Inductive case :=
    fractions it lists afterwards *)
 | CGap (sorted : bool) (dir : list fracst) (kinds : list lkind) (k : nat) (log : list (nat * xop)) (crash : nat)
        (state : list (list kind)) (sizes : list N) (limit : N) (served : list bool)
+(* regression class of fix bd65f76: [sealed; sealed; active], a reader holds the oldest fraction, a pass pushes it
+   out (its goroutine waits for the reader), the next pass pushes out the second fraction, the process is
+   killed, restart: which of the three fractions are listed *)
+| COverlap (sorted : bool) (served : list bool)
 (* power loss around a save of .frac-cache: the file holds `keep` of `full` bytes; parsed = encoding/json
    accepted the cut content; rest as CCache (strict) *)
 | CCachePL (full keep : N) (parsed : bool) (l : list cinfo) (expected ok wrong : N)
@@ -327,6 +331,11 @@ Definition case_agrees (c : case) : bool :=
              list_eqb Bool.eqb (pat (shrink limit (pick_sizes served0 sizes)) served0) served
          | None => false
          end
+  | COverlap sorted served =>
+      list_eqb Bool.eqb
+        (map alive (after_crashed_passes sorted [DPass 1; DPass 1; DJob 1; DJob 1; DJob 1; DJob 1; DJob 1; DJob 1; DJob 1; DJob 1]
+                      [clean_sealed sorted; clean_sealed sorted; clean_active]))
+        served
   | CCachePL full keep parsed l _ _ _ =>
       Bool.eqb parsed (match pf_parse (mkpf [] (N.to_nat keep) (N.to_nat full)) with Some _ => true | None => false end)
       && forallb (fun c => info_eqb (new_sealed (if parsed then ci_entry c else None) (ci_hdr c)) (ci_impl c)) l
@@ -370,6 +379,7 @@ Definition case_spec_ok (c : case) : bool :=
                   && prefix_shape (served_flags d kinds o)       (* oldest first in every crash state *)
       end
   | CGap sorted d kinds k log crash state sizes limit served => prefix_shape served
+  | COverlap sorted served => prefix_shape served
   | CCachePL full keep parsed l expected ok wrong =>
       forallb (fun c => info_eqb (ci_hdr c) (ci_impl c)) l && N.eqb ok expected && N.eqb wrong 0
   | CSaveOps ops => write_before_rename ops false
